@@ -24,6 +24,78 @@ fn set_clock(t_ns: u64) {
     rsadsb_common::verif_clock::set(vt(t_ns));
 }
 
+/// Diagnostics seam. The libraries log through `tracing`; whether the arguments of a log line are
+/// evaluated at all depends on the subscriber the embedding program installed (`RUST_LOG`). One
+/// process-wide subscriber is installed here whose verbosity is a per-thread setting taken from
+/// the scenario, so "nobody listens" and "everything is listened to" are both explored. Every
+/// enabled event is formatted (and thrown away), as a real subscriber would.
+pub mod logsub {
+    use core::cell::Cell;
+    use core::fmt::Write;
+    use std::sync::Once;
+
+    use tracing::field::{Field, Visit};
+    use tracing::span::{Attributes, Id, Record};
+    use tracing::subscriber::Interest;
+    use tracing::{Event, Level, Metadata, Subscriber};
+
+    thread_local! {
+        static LEVEL: Cell<u8> = const { Cell::new(0) };
+    }
+
+    struct Null;
+    impl Write for Null {
+        fn write_str(&mut self, _: &str) -> core::fmt::Result {
+            Ok(())
+        }
+    }
+    impl Visit for Null {
+        fn record_debug(&mut self, _: &Field, value: &dyn core::fmt::Debug) {
+            let _ = write!(self, "{value:?}");
+        }
+    }
+
+    struct LevelSub;
+    impl Subscriber for LevelSub {
+        fn register_callsite(&self, _: &'static Metadata<'static>) -> Interest {
+            Interest::sometimes()
+        }
+        fn enabled(&self, m: &Metadata<'_>) -> bool {
+            let rank = match *m.level() {
+                Level::ERROR => 1,
+                Level::WARN => 2,
+                Level::INFO => 3,
+                Level::DEBUG => 4,
+                Level::TRACE => 5,
+            };
+            rank <= LEVEL.with(Cell::get)
+        }
+        fn new_span(&self, a: &Attributes<'_>) -> Id {
+            a.record(&mut Null);
+            Id::from_u64(1)
+        }
+        fn record(&self, _: &Id, r: &Record<'_>) {
+            r.record(&mut Null);
+        }
+        fn record_follows_from(&self, _: &Id, _: &Id) {}
+        fn event(&self, e: &Event<'_>) {
+            e.record(&mut Null);
+        }
+        fn enter(&self, _: &Id) {}
+        fn exit(&self, _: &Id) {}
+    }
+
+    static INSTALL: Once = Once::new();
+
+    /// verbosity for the scenario that runs next on this thread (0 = nobody listens)
+    pub fn set_level(l: u8) {
+        INSTALL.call_once(|| {
+            let _ = tracing::subscriber::set_global_default(LevelSub);
+        });
+        LEVEL.with(|c| c.set(l));
+    }
+}
+
 pub fn vt(t_ns: u64) -> SystemTime {
     SystemTime::UNIX_EPOCH + Duration::from_secs(BASE_EPOCH_S) + Duration::from_nanos(t_ns)
 }
@@ -221,7 +293,15 @@ pub fn execute(sc: &TScenario, mask: Mask) -> Outcome {
     } else {
         "C15"
     };
+    logsub::set_level(sc.log_level);
+    match sc.log_level {
+        0 => {}
+        1..=3 => out.fault("diagnostics_on_up_to_info"),
+        4 => out.fault("diagnostics_on_debug"),
+        _ => out.fault("diagnostics_on_trace"),
+    }
     let r = catch_unwind(AssertUnwindSafe(|| run(sc, mask, rx, &mut out, &mut h)));
+    logsub::set_level(0);
     if r.is_err() {
         let (loc, msg) = take_panic().unwrap_or_default();
         let loc = short_loc(&loc);
